@@ -724,6 +724,60 @@ func truncateProblems(c *Ctx, fn *ssa.Function) string {
 			}
 			x, y := bare(bo.X), bare(bo.Y)
 			op := bo.Op
+			// the count against a constant: the truncation must happen for every count >= 1
+			{
+				cx, cy, cop := x, y, op
+				if _, isC := cx.(*ssa.Const); isC {
+					cx, cy = cy, cx
+					switch cop {
+					case token.LSS:
+						cop = token.GTR
+					case token.GTR:
+						cop = token.LSS
+					case token.LEQ:
+						cop = token.GEQ
+					case token.GEQ:
+						cop = token.LEQ
+					}
+				}
+				if n, isC := constInt(cy); isC && cx == cntV {
+					if !f.Pol {
+						switch cop {
+						case token.LSS:
+							cop = token.GEQ
+						case token.GEQ:
+							cop = token.LSS
+						case token.GTR:
+							cop = token.LEQ
+						case token.LEQ:
+							cop = token.GTR
+						case token.EQL:
+							cop = token.NEQ
+						case token.NEQ:
+							cop = token.EQL
+						}
+					}
+					excludesOne := false
+					switch cop {
+					case token.GTR:
+						excludesOne = n >= 1
+					case token.GEQ:
+						excludesOne = n >= 2
+					case token.EQL:
+						excludesOne = n != 1
+					case token.NEQ:
+						excludesOne = n == 1
+					case token.LSS:
+						excludesOne = n <= 1
+					case token.LEQ:
+						excludesOne = n <= 0
+					}
+					if excludesOne {
+						problem = fmt.Sprintf("the truncation at %s happens only when count %s %d: a short write that got exactly one byte out leaves that byte (the opening brace of the next record) at the end of the file", c.InstrPos(i), cop, n)
+					}
+					continue
+				}
+			}
 			switch {
 			case x == offV && y == cntV:
 			case x == cntV && y == offV:
